@@ -301,6 +301,11 @@ def attribute_rules(ctx, report):
                                        "Some built in": sorted(optagg["Some"]), "None built in": sorted(optagg["None"])})
 
 
+TEXTUAL = re.compile(r"(ToString>?::to_string|std::fmt::Display::fmt|as std::fmt::Display>::fmt|alloc::fmt::format|std::fmt::format|"
+                     r"str::<impl str>::(ends_with|starts_with|contains|strip_suffix|strip_prefix|find|rfind|split\w*|rsplit\w*)|"
+                     r"String::from_utf8\w*|str::from_utf8\w*)$")
+
+
 def run(ctx):
     prog = ctx.prog
     report = Report("C15", ctx, "R1 the RData variants InstanceInformation::into_records builds (A, AAAA, SRV, TXT) are exactly the variants "
@@ -309,7 +314,8 @@ def run(ctx):
                     "name != own instance AND name.is_subdomain_of(service); R3 the attribute writer (TXT from a map) writes a `=` on every path of "
                     "a present value and on no path of an absent one; R4 the attribute reader (TXT::attributes) splits once at the first `=` "
                     "and stores a present value exactly when a second piece exists; R5 the escape / unescape functions convert no single byte to a char "
-                    "(nor a char to a byte).")
+                    "(nor a char to a byte); R6 Name::is_subdomain_of / Name::without reach no rendering of a name as text and no string "
+                    "search: the subdomain relation is decided label by label.")
     ir = ctx.must_find(report, "simple_mdns::InstanceInformation::into_records")
     fr = ctx.must_find(report, "simple_mdns::InstanceInformation::from_records")
     if ir is None or fr is None:
@@ -518,6 +524,30 @@ def run(ctx):
                                                      "a name containing a non-ASCII character" % (s["sp"].get("sn") or "cast", x.qname)))
         report.nontriv("escape works on chars: " + q.split("::")[-1])
     report.floor("escape / unescape functions scanned", n_esc, 2)
+    # ---- R6: "strict subdomain of the watched service" is decided on labels
+    # the textual form of a name does not keep its label boundaries (labels are joined by '.', and `my_http` ends with `http`), so
+    # a verdict computed from rendered strings accepts names that are not subdomains
+    n_sub = 0
+    for q in ("simple_dns::Name::is_subdomain_of", "simple_dns::Name::without"):
+        sb = ctx.must_find(report, q)
+        if sb is None:
+            continue
+        n_sub += 1
+        reach = ctx.cg.reachable([sb.id])
+        for bid in reach:
+            x = prog.bodies[bid]
+            if x.crate != sb.crate:
+                continue
+            for bi, t in mu.calls(x, r"."):
+                cd = t["callee"]["def"] if t.get("callee") else ""
+                m = TEXTUAL.search(cd)
+                if m and not x.blocks[bi]["cleanup"]:
+                    report.violate(Violation(report.key(sb.qname, "C15-R6", "textual", m.group(0)), "%s:%d" % (x.file, t["sp"]["l"]), "C15-R6",
+                                             "C15-R6: %s decides on the rendered text of a name (`%s` in %s): label boundaries are lost there, so a "
+                                             "name whose label merely ends with the service's first label (`cam._my_http._tcp.local` for "
+                                             "`_http._tcp.local`) passes as a subdomain and its records are reported" % (sb.qname, m.group(0), x.qname)))
+        report.nontriv("subdomain relation on labels: " + q.split("::")[-1])
+    report.floor("subdomain predicates scanned", n_sub, 2)
     report.floor("ingest filters verified", n, 2)
     report.sample({"rule": "R2", "filter": "aw.name != full_name && aw.name.is_subdomain_of(service_name)"})
     report.assumptions += ["set / attribute equality across the wire and the escape / unescape inverse are value-level and not decided"]
